@@ -10,6 +10,10 @@
 //   "global"        Global::Matrix/Vector/Filter/Transfer over one process, no coarse muxer
 //   "global-muxer"  ... with a coarse muxer in which this process is child and parent (size-1 sibling
 //                   communicator): Global::Transfer goes through its temporary vector and Muxer::join / split
+//   "clone"         double/Index hierarchy whose LAFEM::Transfer objects went through clone (modes rotating with the
+//                   level) -> move construction -> move assignment (even levels) or two more clones (odd levels), the
+//                   source objects destroyed
+//   "global-clone"  the "global-muxer" hierarchy whose Global::Transfer objects went through clone -> move (-> clone -> clone)
 // and applies one multigrid cycle of every run to the same defect on each of them.  Reported per (variant, run):
 //   dev      max|cor_variant - cor_reference| / max|cor_reference| in units of the variant's machine epsilon (ceil),
 //   calls    smoother / coarse solver calls as logged by FEAT's Statistics expressions (kind*16 + level),
@@ -49,6 +53,7 @@
 #include <kernel/util/dist.hpp>
 #include <deque>
 #include <limits>
+#include <memory>
 
 using namespace FEAT;
 
@@ -192,7 +197,7 @@ namespace
   // LAFEM hierarchy in DT/IT converted from the reference levels; returns the corrections (as double) per run
   template<class DT, class IT>
   bool run_lafem(const std::deque<RefLevel>& ref, bool converted, Index steps, const std::vector<RunCfg>& runs, const std::vector<double>& def,
-    std::vector<std::vector<double>>& cors, std::vector<vj::Value>& calls, vj::Value& xfer, std::string& why, long long seed)
+    std::vector<std::vector<double>>& cors, std::vector<vj::Value>& calls, vj::Value& xfer, std::string& why, long long seed, bool life = false)
   {
     typedef LevelData<DT, IT> L;
     typedef typename L::VectorType Vec;
@@ -204,6 +209,21 @@ namespace
       lv[l].matrix.convert(ref[l].matrix);
       lv[l].filter.convert(ref[l].filter);
       if(l + 1 < nl) lv[l].transfer.convert(ref[l].transfer);
+      if(life && l + 1 < nl)
+      {
+        // life-cycle of the transfer object before the multigrid sees it; every source object is destroyed
+        typedef typename L::TransferType Tra;
+        const LAFEM::CloneMode modes[3] = {LAFEM::CloneMode::Deep, LAFEM::CloneMode::Weak, LAFEM::CloneMode::Shallow};
+        std::unique_ptr<Tra> t1(new Tra(lv[l].transfer.clone(modes[l % 3])));
+        lv[l].transfer = Tra();
+        std::unique_ptr<Tra> t2(new Tra(std::move(*t1)));
+        t1.reset();
+        // (exactly ONE clone on even levels, three on odd levels: an even number would undo an exchange of two members)
+        if(l % 2 == 0) lv[l].transfer = std::move(*t2);
+        else { Tra t3(t2->clone()); lv[l].transfer = t3.clone(modes[(l + 1) % 3]); }
+        t2.reset();
+        lv[l].transfer.compile();
+      }
     }
     if(converted)
     {
@@ -247,7 +267,7 @@ namespace
 
   // Global:: hierarchy over one process wrapping CLONES of the reference levels
   bool run_global(const std::deque<RefLevel>& ref, bool with_muxer, Index steps, const std::vector<RunCfg>& runs, const std::vector<double>& def,
-    std::vector<std::vector<double>>& cors, std::vector<vj::Value>& calls, std::string& why)
+    std::vector<std::vector<double>>& cors, std::vector<vj::Value>& calls, std::string& why, bool life = false)
   {
     typedef LAFEM::DenseVector<double, Index> LVec;
     typedef RefLevel::MatrixType LMat;
@@ -276,7 +296,22 @@ namespace
           if(!mux[l].is_child() || !mux[l].is_parent() || mux[l].is_ghost()) { why = "unexpected muxer state"; return false; }
           pm = &mux[l];
         }
-        gt.emplace_back(pm, ref[l].transfer.get_mat_prol().clone(), ref[l].transfer.get_mat_rest().clone(), ref[l].transfer.get_mat_trunc().clone());
+        if(!life)
+          gt.emplace_back(pm, ref[l].transfer.get_mat_prol().clone(), ref[l].transfer.get_mat_rest().clone(), ref[l].transfer.get_mat_trunc().clone());
+        else
+        {
+          // clone -> move construction -> clone; the source objects are destroyed before the multigrid runs
+          const LAFEM::CloneMode modes[3] = {LAFEM::CloneMode::Weak, LAFEM::CloneMode::Shallow, LAFEM::CloneMode::Deep};
+          std::unique_ptr<GTra> t0(new GTra(pm, ref[l].transfer.get_mat_prol().clone(), ref[l].transfer.get_mat_rest().clone(), ref[l].transfer.get_mat_trunc().clone()));
+          std::unique_ptr<GTra> t1(new GTra(t0->clone(modes[l % 3])));
+          t0.reset();
+          std::unique_ptr<GTra> t2(new GTra(std::move(*t1)));
+          t1.reset();
+          // (an odd number of clones: an even number would undo an exchange of two members)
+          if(l % 2 == 0) gt.emplace_back(std::move(*t2));
+          else { GTra t3(t2->clone()); gt.emplace_back(t3.clone(modes[(l + 1) % 3])); }
+          t2.reset();
+        }
       }
     }
     std::vector<const GMat*> mats; std::vector<const GFil*> fils; std::vector<const GTra*> tras;
@@ -353,14 +388,17 @@ vj::Value run_case(const vj::Value& c)
   if(!run_lafem<double, Index>(ref, false, steps, runs, def, cref, lref, dummy, why, seed)) return vh::bad("reference: " + why);
 
   vj::Value out = vj::Value::array();
-  const char* names[4] = {"index", "float", "global", "global-muxer"};
-  for(int v = 0; v < 4; ++v)
+  const char* names[6] = {"index", "float", "global", "global-muxer", "clone", "global-clone"};
+  for(int v = 0; v < 6; ++v)
   {
     std::vector<std::vector<double>> cv; std::vector<vj::Value> lv; vj::Value xfer = vj::Value::object();
     bool ok = true; double eps = std::numeric_limits<double>::epsilon();
     if(v == 0) ok = run_lafem<double, unsigned int>(ref, true, steps, runs, def, cv, lv, xfer, why, seed);
     else if(v == 1) { ok = run_lafem<float, unsigned int>(ref, true, steps, runs, def, cv, lv, xfer, why, seed); eps = double(std::numeric_limits<float>::epsilon()); }
+    else if(v == 4) ok = run_lafem<double, Index>(ref, true, steps, runs, def, cv, lv, xfer, why, seed, true);
+    else if(v == 5) ok = run_global(ref, true, steps, runs, def, cv, lv, why, true);
     else ok = run_global(ref, v == 3, steps, runs, def, cv, lv, why);
+    const bool hx = (v < 2 || v == 4);
     if(!ok) return vh::bad(std::string(names[v]) + ": " + why);
     for(std::size_t q = 0; q < runs.size(); ++q)
     {
@@ -376,8 +414,8 @@ vj::Value run_case(const vj::Value& c)
       double u = (finite && nrm > 0.0) ? std::ceil(diff / (eps * nrm)) : 1e9;
       r["dev"] = (long long)std::min(u, 1e9);
       r["calls"] = lv[q]; r["ref_calls"] = lref[q];
-      r["has_xfer"] = (v < 2);
-      r["prol_ok"] = v < 2 ? xfer["prol"].as_bool() : true; r["rest_ok"] = v < 2 ? xfer["rest"].as_bool() : true; r["trunc_ok"] = v < 2 ? xfer["trunc"].as_bool() : true;
+      r["has_xfer"] = hx;
+      r["prol_ok"] = hx ? xfer["prol"].as_bool() : true; r["rest_ok"] = hx ? xfer["rest"].as_bool() : true; r["trunc_ok"] = hx ? xfer["trunc"].as_bool() : true;
       out.push(r);
     }
   }
